@@ -175,11 +175,13 @@ package gnmi
 //@   props C12
 //@   safe
 //@   requires serverWF(s) && ctx != nil
+//@   ensures errWF(err)
 
 //@ func createUpdate(prefix, path, configValues, encoding) (updates, err)
 //@   props C12
 //@   safe
 //@   requires forall cv in configValues :: cv != nil
+//@   modifies nothing
 //@   ensures errWF(err)
 //@   loop 1 invariant true
 
@@ -191,10 +193,33 @@ package gnmi
 //@   props C12
 //@   safe
 //@   requires serverWF(s) && targetInfo != nil && pathInfo != nil && ctx != nil && cfgValuesWF(targetInfo.configuration)
+//@   modifies nothing
 //@   ensures errWF(err)
 //@   loop 1 invariant forall e in configValues :: e != nil
 //@   loop 2 invariant (forall e in configValuesAllowed :: e != nil) && (forall e in filteredValues :: e != nil)
 //@ func (*Server).checkOpaAllowed(s, ctx, targetInfo, configValues, groups) (r, err)
 //@   trusted
+//@   modifies nothing
 //@   ensures forall e in r :: e != nil
+//@   ensures errWF(err)
+
+//@ spec wireValidGet(req *gnmi.GetRequest) bool = req != nil && (forall p in req.Path :: p != nil) && (forall ex in req.Extension :: wireValidExt(ex))
+//@ func (*Server).processRequest(s, ctx, req, groups, transactionStrategy) (resp, err)
+//@   props C12
+//@   safe
+//@   requires serverWF(s) && wireValidGet(req) && ctx != nil
+//@   ensures errWF(err)
+// (loop 2 is the first loop - over the request's paths; loop 1 the loop over the collected path infos; the loop over the targets only spawns the wait goroutines
+// and needs no invariant)
+//@   loop 2 invariant targets != nil && getTargetsWF(targets) && overrides != nil && (forall p in paths :: p != nil)
+//@   loop 1 invariant targets != nil && getTargetsWF(targets) && (forall p in paths :: p != nil)
+
+//@ func (*Server).Get(s, ctx, req) (resp, err)
+//@   props C12
+//@   safe
+//@   requires serverWF(s) && wireValidGet(req) && ctx != nil
+//@ func (*Server).processStateOrOperationalRequest(s, ctx, req) (resp, err)
+//@   props C12
+//@   safe
+//@   requires serverWF(s) && wireValidGet(req) && ctx != nil
 //@   ensures errWF(err)
